@@ -311,13 +311,25 @@ func corpus() []prog {
 	return ps
 }
 
-func body(p prog, maxK int) func() {
+func body(p prog, maxK int) func() { return bodyK(p, maxK, false) }
+
+// startRaceBody: only the cancellation points around StartAll with events delivered at the same time.
+func startRaceBody(p prog) func() { return bodyK(p, 0, true) }
+
+func bodyK(p prog, maxK int, startRace bool) func() {
 	defs := p.g.Parse()
 	return func() {
 		// cancellation points: k = 0..maxK traces received; maxK+1: before StartAll is called;
 		// maxK+2: from another goroutine, concurrently with StartAll
-		k := verifrt.Choose(maxK + 3)
-		pre, conc := k == maxK+1, k == maxK+2
+		// maxK+3, maxK+4: as the last two, with events being delivered to the instance at the same time
+		k := 0
+		if startRace {
+			k = maxK + 3 + verifrt.Choose(2)
+		} else {
+			k = verifrt.Choose(maxK + 5)
+		}
+		pre, conc := k == maxK+1 || k == maxK+3, k == maxK+2 || k == maxK+4
+		early := k >= maxK+3
 		r := drv.Open(p.g, defs, drv.OpenOpts{Vars: p.vars, Timer: p.timer, SubCap: 1})
 		cancelled := false
 		cancelSeq := -1
@@ -393,6 +405,15 @@ func body(p prog, maxK int) func() {
 			r.Cancel()
 		}
 		r.StartAll()
+		if early {
+			issuedEv++
+			go func() {
+				for _, ref := range []string{"A", "B", "E1", "T"} {
+					r.Signal(ref)
+				}
+				returnedEv++
+			}()
+		}
 		if conc {
 			cancelled = true
 			go r.Cancel()
@@ -417,8 +438,11 @@ func body(p prog, maxK int) func() {
 		if conc {
 			where = fmt.Sprintf("cancel concurrently with StartAll (%d traces received)", r.NTraces)
 		}
+		if early {
+			where += ", events delivered at the same time"
+		}
 		if !r.StartReturned {
-			h.Fail(sig+"/startall-returns", "%s: StartAll has not returned; live: %v", where, verifrt.LiveRepoGoroutines())
+			h.Fail(sig+"/startall-returns", "%s: StartAll has not returned; callers blocked: %v; live: %v", where, verifrt.LiveEnvGoroutines(), verifrt.LiveRepoGoroutines())
 			return
 		}
 		if w != nil && !w.Returned {
@@ -507,6 +531,12 @@ func init() {
 					sc.Split = 16
 				}
 				out = append(out, sc)
+			}
+		}
+		// StartAll racing the cancellation and event deliveries, at two deviations
+		for _, p := range corpus() {
+			if thorough || p.name == "task-pending" || p.name == "two-starts" {
+				out = append(out, &h.Scn{Name: fmt.Sprintf("C07/%s/start-race/d2", p.name), Body: startRaceBody(p), Opts: verifrt.Options{Bound: 2, UseCache: true}, Weight: 2000, Split: 4})
 			}
 		}
 		{
